@@ -63,7 +63,16 @@ class Simplifier(walkers.dag.DagWalker):
         :param expression: The target expression that must be simplified with constant propagation.
         :return: The simplified expression.
         """
-        return self.walk(expression)
+        res = self.walk(expression)
+        # The rules are applied bottom-up in a single pass, and some of them
+        # (e.g. the elimination of equalities under an Exists) enable further
+        # rules: re-apply them until nothing changes, so that simplifying a
+        # simplified expression is the identity.
+        seen = {expression}
+        while res not in seen:
+            seen.add(res)
+            res = self.walk(res)
+        return res
 
     def walk_and(self, expression: FNode, args: List[FNode]) -> FNode:
         if len(args) == 2 and args[0] == args[1]:
